@@ -145,8 +145,9 @@ def from_replay(case, log):
     skips = {}
     for e in log:
         if e[0] == "call":
-            ev.append({"e": "call", "v": e[1], "a": e[2], "ok": e[3] == "ok"})
-        else:
+            if e[3] in ("ok", "skip"):        # (the hooks are logged as calls with attempt number 0: not trace events)
+                ev.append({"e": "call", "v": e[1], "a": e[2], "ok": e[3] == "ok"})
+        elif e[0] == "test":
             kg = plans[e[1] - 1]["kg"]
             ret = True if kg[0] == "always" else (e[2] < kg[1] if kg[0] == "stopAt" else e[3] == 0)
             ev.append({"e": "test", "v": e[1], "r": e[2], "s": e[3], "ret": ret})
